@@ -18,7 +18,6 @@ import (
 	"math/rand/v2"
 	"sort"
 	"strings"
-	"sync"
 
 	"cuelabs.dev/go/oci/ociregistry"
 	"cuelabs.dev/go/oci/ociregistry/ocimem"
@@ -456,62 +455,6 @@ func faultySourcePush(run *evid.Run, idx int) {
 	}
 }
 
-// rotating is a member whose upload identifiers change with every successful Write (like registries
-// that put per-request state into the upload location); only the latest identifier resumes the upload.
-// The BlobWriter contract allows it: ID is valid only before the first Write and after Close.
-type rotating struct {
-	ociregistry.Interface
-	mu  sync.Mutex
-	gen map[string]int
-}
-
-type rotatingWriter struct {
-	ociregistry.BlobWriter
-	r *rotating
-}
-
-func (r *rotating) PushBlobChunked(ctx context.Context, repo string, hint int) (ociregistry.BlobWriter, error) {
-	w, err := r.Interface.PushBlobChunked(ctx, repo, hint)
-	if err != nil {
-		return nil, err
-	}
-	return &rotatingWriter{w, r}, nil
-}
-
-func (r *rotating) PushBlobChunkedResume(ctx context.Context, repo, id string, offset int64, hint int) (ociregistry.BlobWriter, error) {
-	i := strings.LastIndex(id, "~")
-	if i < 0 {
-		return nil, fmt.Errorf("%w: no generation in %q", ociregistry.ErrBlobUploadUnknown, id)
-	}
-	r.mu.Lock()
-	cur := r.gen[id[:i]]
-	r.mu.Unlock()
-	if id[i+1:] != fmt.Sprint(cur) {
-		return nil, fmt.Errorf("%w: identifier %q is not the latest one of this upload (generation %d)", ociregistry.ErrBlobUploadUnknown, id, cur)
-	}
-	w, err := r.Interface.PushBlobChunkedResume(ctx, repo, id[:i], offset, hint)
-	if err != nil {
-		return nil, err
-	}
-	return &rotatingWriter{w, r}, nil
-}
-
-func (w *rotatingWriter) Write(p []byte) (int, error) {
-	n, err := w.BlobWriter.Write(p)
-	if err == nil {
-		w.r.mu.Lock()
-		w.r.gen[w.BlobWriter.ID()]++
-		w.r.mu.Unlock()
-	}
-	return n, err
-}
-
-func (w *rotatingWriter) ID() string {
-	w.r.mu.Lock()
-	defer w.r.mu.Unlock()
-	return fmt.Sprintf("%s~%d", w.BlobWriter.ID(), w.r.gen[w.BlobWriter.ID()])
-}
-
 // rotatingIDs: chunked uploads with close-and-resume through a unifier whose members hand out a new
 // upload identifier after every Write. The same upload is run against a third, equal registry of the
 // same kind on its own: a write that each member accepts when asked directly must be applied to both
@@ -519,7 +462,8 @@ func (w *rotatingWriter) ID() string {
 func rotatingIDs(run *evid.Run, idx int) {
 	rng := run.Rand(156, uint64(idx))
 	m0, m1, mt := ocimem.New(), ocimem.New(), ocimem.New()
-	var r0, r1, rt ociregistry.Interface = &rotating{Interface: m0, gen: map[string]int{}}, &rotating{Interface: m1, gen: map[string]int{}}, &rotating{Interface: mt, gen: map[string]int{}}
+	onQuery := idx%5 == 4
+	var r0, r1, rt ociregistry.Interface = stack.NewRotating(m0, onQuery), stack.NewRotating(m1, onQuery), stack.NewRotating(mt, onQuery)
 	via := "direct"
 	var closers []func()
 	if idx%3 == 2 {
